@@ -56,7 +56,8 @@ Proof. exact toref_expected. Qed.
 
 (* C04 and C02 composed: oj.Parser and gen.Parser on the writer's output deliver exactly the written
    tree, for every option set and WriteLimit, for trees of null, booleans, integers from
-   -9223372036854775807 to 9223372036854775799, strings that are valid UTF-8, arrays and objects with
+   -9223372036854775807 to 9223372036854775799, floats whose text is a plain decimal ([-]int.frac, at
+   most 18 fraction digits), strings that are valid UTF-8, arrays and objects with
    distinct names and no member the options omit (clean). *)
 Definition C04_parse_write (one : bool) (K : cfg) : Prop :=
   forall o lim v,
